@@ -47,8 +47,10 @@ def run(chk):
         if "diags" not in o or o.get("parseErrors"):
             continue
         vars_ = gen_check.vars_for(t, c.get("vars", {}))
+        meta = {a: dict(m) for a, m in c.get("meta", {}).items()}
+        meta.setdefault("a", {}).setdefault("k", "USD 7")      # the key read by inserted `meta(@a, "k")` origins exists
         ecases.append({"id": len(ecases), "op": "exec", "script": t, "vars": vars_, "balances": c.get("balances", {}),
-                       "meta": c.get("meta", {}), "store": "exact", "failAt": -1,
+                       "meta": meta, "store": "exact", "failAt": -1,
                        "flags": ["experimental-overdraft-function"]})
         eidx.append(i)
     egos = runner.run_go(ecases)
